@@ -472,3 +472,6 @@ M("c05-twin-generic-early-exit", "C05", D, "        args_with_default = list(sel
 M("c05-generic-early-exit-truthy", "C05", D, "        args_with_default = list(self.parameters.values())\n", "        args_with_default = list(self.parameters.values())\n        if not (any(args) or kwargs):\n            return args_with_default\n", rules=["C05.generic"], what="seed C05-r4b: a positional override 0 is skipped")
 M("c07-seed-zero-truthy", ["C07", "C05"], J, "        if random_state is not None:\n            # if random_state already is a np.random.Generator", "        if random_state:\n            # if random_state already is a np.random.Generator", rules={"C07": ["C07.seedzero"], "C05": ["C05.optional"]}, what="seed C07-r4b: seed 0 treated as no seed")
 M("c11-fixed-zero-truthy", ["C11", "C05"], D, "        if self.f_mu is not None:\n            fparams[\"fscale\"] = math.exp(self.f_mu)", "        if self.f_mu:\n            fparams[\"fscale\"] = math.exp(self.f_mu)", rules={"C11": ["C11.fixedzero"], "C05": ["C05.optional"]}, what="seed C12-r4a: a mu fixed at 0 is fitted freely")
+M("c14-weights-as-sigma", ["C14", "C09"], FIT, "    if weights is not None:\n        # curve_fit takes standard deviations: a weight w_i on the squared residual is sigma_i = w_i ** -0.5\n        weights = 1 / np.sqrt(np.asarray(weights, dtype=float))\n\n", "", rules={"C14": ["C14.bounds"], "C09": ["C09.dependence"]}, what="original defect: weights passed as sigma (inverted and squared)")
+M("c14-weights-inverse-only", "C14", FIT, "        weights = 1 / np.sqrt(np.asarray(weights, dtype=float))\n", "        weights = 1 / np.asarray(weights, dtype=float)\n", rules=["C14.bounds"], what="sigma = 1 / w: the weights are squared")
+M("c14-twin-weights-power", "C14", FIT, "        weights = 1 / np.sqrt(np.asarray(weights, dtype=float))\n", "        weights = np.asarray(weights, dtype=float) ** -0.5\n", expect="pass")
